@@ -111,8 +111,8 @@ def expect_range(field, v):
   kind, lo, loc, hi, hic, equal_ok = RANGES[field]
   if v is None:
     return 'accept'
-  if isinstance(v, list) and len(v) == 2:
-    return 'unspecified'
+  if isinstance(v, list):
+    return 'reject'          # documented as "a tuple of two ..."; a list would also be kept by reference
   if not isinstance(v, tuple) or len(v) != 2:
     return 'reject'
   a, b = v
